@@ -382,6 +382,8 @@ def run(chk):
     # the set handed over for an alternative winner is built afresh for it: all candidates minus that winner
     ok_set = False
     detail = {}
+    loop = a1 = None
+    inside, adds, rems = [], [], []
     if len(calls) == 1:
         loop = next((a for a in ancestors(calls[0]) if isinstance(a, ast.For)), None)
         a1 = calls[0].args[1] if len(calls[0].args) > 1 else None
@@ -396,6 +398,56 @@ def run(chk):
             fresh = len(inside) == 1 and not outside and norm(inside[0].value).startswith("set(") and inside[0].lineno < calls[0].lineno
             ok_set = fresh and len(adds) == 1 and norm(adds[0].args[0]) == bp.args.args[0].arg and len(rems) == 1 and norm(rems[0].args[0]) == a0 \
                 and all(x.lineno < calls[0].lineno for x in adds + rems)
+    # ... of the ids *as given*: the alternative winner handed to the tree builder is the element's own id, the other members of
+    # the set are the ids of the list handed in and the apparent-winner argument, none of them converted (str(), int(), ...) --
+    # the assertion tuples carry the ids as parseAssertions read them, and a converted id equals none of them
+    ok_ids = False
+    if len(calls) == 1 and loop is not None and isinstance(a1, ast.Name):
+        lv = norm(loop.target)
+        p0, p1 = bp.args.args[0].arg, bp.args.args[1].arg
+        root = expand_locals(calls[0].args[0], bp, stop=(lv,))
+        members = expand_locals(inside[0].value, bp, stop=(lv, p1)) if len(inside) == 1 else None
+        src_ok = False
+        if isinstance(members, ast.Call) and isinstance(members.func, ast.Attribute) and members.func.attr == "copy" and not members.args:
+            members = members.func.value  # a copy of a set has the same members
+        if isinstance(members, ast.Call) and norm(members.func) == "set" and len(members.args) == 1:
+            m0 = members.args[0]
+            if isinstance(m0, ast.Call) and norm(m0.func) in ("list", "set", "tuple") and len(m0.args) == 1:
+                m0 = m0.args[0]
+            if isinstance(m0, (ast.ListComp, ast.GeneratorExp, ast.SetComp)) and len(m0.generators) == 1 and not m0.generators[0].ifs:
+                g_ = m0.generators[0]
+                src_ok = norm(g_.iter) == p1 and norm(m0.elt) == f"{norm(g_.target)}[0]"
+        elif isinstance(members, ast.SetComp) and len(members.generators) == 1 and not members.generators[0].ifs:
+            g_ = members.generators[0]
+            src_ok = norm(g_.iter) == p1 and norm(members.elt) == f"{norm(g_.target)}[0]"
+        rebound = [x for x in walk_local(bp) if isinstance(x, ast.Name) and x.id in (p0, p1) and isinstance(x.ctx, (ast.Store, ast.Del))]
+        def as_element(e):
+            """the expression in terms of ELEM, the element of the list handed in that this iteration is about (the loop may run
+            over the list itself, or over zip(<ids derived from it>, <it>))"""
+            e = expand_locals(e, bp, stop=tuple(x.id for x in ast.walk(loop.target) if isinstance(x, ast.Name)))
+            if isinstance(loop.target, ast.Name) and norm(loop.iter) == p1:
+                return norm(e).replace(loop.target.id, "ELEM") if isinstance(e, (ast.Subscript, ast.Name)) else None
+            if isinstance(loop.target, ast.Tuple) and isinstance(loop.iter, ast.Call) and norm(loop.iter.func) == "zip" \
+                    and len(loop.iter.args) == len(loop.target.elts) and any(norm(a_) == p1 for a_ in loop.iter.args):
+                for t_, a_ in zip(loop.target.elts, loop.iter.args):
+                    if isinstance(e, ast.Name) and isinstance(t_, ast.Name) and e.id == t_.id:
+                        a_ = expand_locals(a_, bp, stop=(p1,))
+                        if norm(a_) == p1:
+                            return "ELEM"
+                        if isinstance(a_, ast.ListComp) and len(a_.generators) == 1 and not a_.generators[0].ifs \
+                                and norm(a_.generators[0].iter) == p1 and isinstance(a_.generators[0].target, ast.Name):
+                            return norm(a_.elt).replace(a_.generators[0].target.id, "ELEM")
+                    if isinstance(e, ast.Subscript) and isinstance(e.value, ast.Name) and isinstance(t_, ast.Name) and e.value.id == t_.id \
+                            and norm(a_) == p1:
+                        return norm(e).replace(t_.id, "ELEM")
+            return None
+        root_txt = as_element(calls[0].args[0])
+        rem_txt = as_element(rems[0].args[0]) if len(rems) == 1 else None
+        ok_ids = root_txt == "ELEM[0]" and rem_txt == "ELEM[0]" and src_ok and not rebound and len(adds) == 1 and norm(adds[0].args[0]) == p0
+        detail["root"] = root_txt
+    chk.ob("C20.R5", f"{VIS}:buildPrintedResults", "candidate-ids-as-given", ok_ids,
+           "the trees are built over the candidate ids exactly as handed in (the element's own id as alternative winner, the ids of the "
+           "list and the apparent-winner argument as members): no conversion, no re-binding of the arguments", node=bp, strength="N")
     chk.ob("C20.R5", f"{VIS}:buildPrintedResults", "fresh-candidate-set-per-alternative-winner", ok_set,
            "for every alternative winner the tree is built over a set created afresh inside the loop: all non-winners plus the apparent "
            "winner, minus exactly that alternative winner (a set shared across iterations would lose the earlier alternative winners)",
